@@ -301,12 +301,19 @@ static void run_cfg(vh::Trace& tr, Cfg c, const std::string& name, long budget, 
         }, &m2)) { tr.emit(vh::Json("DriverError").str("name", name).str("msg", m2)); return; }
     if (changed && vh::threw([&] { record_config(tr, c, *p, name, b2, rng, "ranges"); }, &m2)) tr.emit(vh::Json("DriverError").str("name", name).str("msg", m2));
   }
-  // B: other view mashing / other TOF mashing (classes that support it)
+  // B: more view mashing / other TOF mashing (classes that support it)
   if (c.geom == "Cylindrical") {
     bool changed = false;
     if (vh::threw([&] {
-          for (int m : { 2, 1, 3, 4 })
-            if (m != c.mash && (c.N / 2) % m == 0 && c.N / 2 / m >= 1) { p->set_num_views(c.N / 2 / m); c.mash = m; changed = true; break; }
+          // combine k views the documented way (set_num_views keeps the azimuthal offset: "you might have to call
+          // set_azimuthal_angle_offset() as well"; this is what SSRB does)
+          for (int k : { 2, 3 })
+            if ((c.N / 2) % (c.mash * k) == 0) {
+              const float offset = p->get_azimuthal_angle_offset() + p->get_azimuthal_angle_sampling() * (k - 1) / 2.F;
+              p->set_num_views(p->get_num_views() / k);
+              p->set_azimuthal_angle_offset(offset);
+              c.mash *= k; changed = true; break;
+            }
           if (p->get_tof_mash_factor() > 0)
             for (int tm : { 3, 1, 5 })
               if (tm != p->get_tof_mash_factor() && tm <= c.maxT && (c.maxT / tm) % 2 == 1) { p->set_tof_mash_factor(tm); c.tofMash = tm; changed = true; break; }
